@@ -43,6 +43,9 @@ key_signature_pattern = re.compile(
     )
 )
 
+# Key names as written in version 1.0.0 ("C", "Bb", "F#m", "A/F#m")
+key_name_pattern = re.compile(r"^[A-G][#b]*m?(/[A-G][#b]*m?)?$")
+
 pitch_class_pattern = re.compile("(?P<step>[A-Ga-g])(?P<alter>[#bn]*)")
 
 number_pattern = re.compile(r"\d+")
@@ -715,7 +718,16 @@ class MatchKeySignature(MatchParameter):
         # pdb.set_trace()
         ksinfo = key_signature_pattern.search(kstr)
 
-        if ksinfo is None:
+        if key_name_pattern.match(kstr.strip()) is not None:
+            # key names of version 1.0.0: flats ("Bb") and minor keys ("F#m")
+            # must not be read as step + mode word of version 0.3.0
+            fmt = "v1.0.0"
+            ksinfo = kstr.strip().split("/")
+            fifths1, mode1 = key_name_to_fifths_mode(ksinfo[0])
+            fifths2, mode2 = None, None
+            if len(ksinfo) == 2:
+                fifths2, mode2 = key_name_to_fifths_mode(ksinfo[1])
+        elif ksinfo is None:
             fmt = "v1.0.0"
             ksinfo = kstr.split("/")
             fifths1, mode1 = key_name_to_fifths_mode(ksinfo[0].upper())
